@@ -258,6 +258,8 @@ class API:
             raise ConfigurationException.from_pydantic_error(e)
         except FileNotFoundError:
             raise FileNotFoundException(path)
+        except IsADirectoryError:
+            raise ConfigurationException(f"The configuration path '{path}' is a directory")
 
     class ConfiguredContext:
         def __init__(self, config: BaseModel, external_types_model: type[BaseExternalType],
